@@ -629,6 +629,13 @@ func (g *Graph) GlobalMutations(pkgs map[string]bool) []GlobalMutation {
 						continue
 					}
 					callee := cc.StaticCallee()
+					if callee != nil && callee.Pkg != nil && (callee.Pkg.Pkg.Path() == "sync" || callee.Pkg.Pkg.Path() == "sync/atomic") && len(cc.Args) > 0 {
+						// a package-level sync.Pool / Map / Mutex / atomic: process-wide state shared by every node
+						if gl := glob(cc.Args[0]); gl != nil {
+							out = append(out, GlobalMutation{fn, ins, gl, callee.Pkg.Pkg.Path() + "." + callee.Name() + " on"})
+						}
+						continue
+					}
 					if callee == nil || !g.repoSet[callee] {
 						continue
 					}
